@@ -118,7 +118,6 @@ Print Assumptions C14_commit_info_abs.
 Theorem C14_has_next_entries_since_abs :
   forall rw l since,
     RepInv rw l -> since < u64_max ->
-    persisted l + max_apply_unpersisted_log_limit l <= u64_max ->
     has_next_entries_since l since
     = Ok (N.max (since + 1) (ll_first (abs l)) <? ll_apply_bound l + 1).
 Proof. exact has_next_entries_since_abs. Qed.
@@ -127,7 +126,6 @@ Print Assumptions C14_has_next_entries_since_abs.
 Theorem C14_next_entries_since_abs :
   forall rw l since max,
     RepInv rw l -> since < u64_max ->
-    persisted l + max_apply_unpersisted_log_limit l <= u64_max ->
     let lo := N.max (since + 1) (ll_first (abs l)) in
     let hi := ll_apply_bound l + 1 in
     next_entries_since l since max
@@ -595,13 +593,15 @@ Theorem C14_stable_before_write_refuted :
 Proof. exact stable_before_write_refuted. Qed.
 Print Assumptions C14_stable_before_write_refuted.
 
-Theorem C14_apply_bound_overflow_panics :
-  forall l since,
-    since < u64_max -> u64_max < persisted l + max_apply_unpersisted_log_limit l ->
-    (exists f, first_index l = Ok f) ->
-    has_next_entries_since l since = Panic site_l_overflow.
-Proof. exact apply_bound_overflow_panics. Qed.
-Print Assumptions C14_apply_bound_overflow_panics.
+(* the apply window's upper bound saturates (F8, fixed in /repo 63caa76): a limit of
+   u64::MAX means "everything committed", not an overflow panic *)
+Theorem C14_apply_bound_saturates :
+  forall rw l since,
+    RepInv rw l -> since < u64_max -> u64_max <= persisted l + max_apply_unpersisted_log_limit l ->
+    has_next_entries_since l since
+    = Ok (N.max (since + 1) (ll_first (abs l)) <? committed l + 1).
+Proof. exact apply_bound_saturates. Qed.
+Print Assumptions C14_apply_bound_saturates.
 
 (* ---- non-vacuity: concrete states meeting the hypotheses ---- *)
 Theorem C14_ex_l0_inv :
